@@ -69,7 +69,11 @@ class Ctx:
         if node is None and isinstance(construct, ast.AST):
             node = construct
         loc = fn.loc(node) if fn is not None else f"{relpath}:{getattr(node, 'lineno', 0)}"
-        o = Ob(rule=rule, family=family, key=self.key(fn, construct, relpath=relpath), loc=loc, ok=bool(ok), msg=msg, detail=detail)
+        key = self.key(fn, construct, relpath=relpath)
+        n_same = sum(1 for x in self.obs if x.rule == rule and (x.key == key or x.key.startswith(key + " #")))
+        if n_same:
+            key = f"{key} #{n_same + 1}"
+        o = Ob(rule=rule, family=family, key=key, loc=loc, ok=bool(ok), msg=msg, detail=detail)
         self.obs.append(o)
         return o
 
